@@ -236,7 +236,7 @@ def build_and_run(job):
         res["f"] = objective(A, y, zz, lam, o["proxg"], Gm, np.asarray(x))
     res["returned_is_app_x"] = bool(x is ap.x)
     held = getattr(ap.alg, "x", None)
-    res["returned_equals_alg_x"] = bool(held is None or (np.shape(held) == np.shape(x) and np.allclose(np.asarray(held), np.asarray(x), rtol=1e-5, atol=1e-6)))
+    res["returned_equals_alg_x"] = bool(held is None or (np.shape(held) == np.shape(x) and core.allclose(np.asarray(held), np.asarray(x), rtol=1e-5, atol=1e-6)))
     res["x32"] = bool(job.get("x32"))
     if job.get("pbar"):
         ov = list(getattr(ap, "objective_values", []))
